@@ -67,6 +67,11 @@ def run(F, R):
             if k == "field":
                 fields |= {f[1:] for f in x if isinstance(f, str) and f.startswith(".")}
     R.check({"keys", "pending"} <= fields, "R28.3", "Requests::take:both", tk.where(), "takes keys and pending", "Requests::take does not take both keys and pending")
+    # ... and hands them over unfiltered: every key a live waiter asked for stays in the batch
+    muts = [c for x in F.with_nested(tk) for c in x.calls() if c.callee and re.search(r"::(retain|remove|drain|clear|truncate|retain_mut|extract_if|pop|swap_remove)$", c.callee)]
+    R.check(not muts, "R28.3", "Requests::take:hands-over-unfiltered", tk.where(), "no removal from keys / pending while taking",
+            "Requests::take removes entries (%s) from the batch it hands over: a key shared by a dropped and a live waiter is never loaded, and the live waiter gets a partial "
+            "result or is never answered" % sorted({c.callee.split("::")[-1] for c in muts}))
 
     R.rule("R28.4", "dispatch threshold: an immediate load is triggered when keys.len() >= max_batch_size, tested before the first-request/timer decision")
     for b in lm:
@@ -110,3 +115,29 @@ def run(F, R):
             R.check(not bad, "R28.5", "do_load:send-result-ignored", c.where(), "send result discarded with .ok()", "a failed send (cancelled waiter) aborts the notification of the remaining waiters")
         tfe = [c for x in F.with_nested(b) for c in x.calls() if c.callee and re.search(r"::try_for_each$|::try_fold$|::all$|::any$", c.callee)]
         R.check(not tfe, "R28.5", "do_load:no-short-circuit-iteration", b.where(), "plain for loops", "waiters are notified through a short-circuiting iterator (%s)" % [c.callee.split("::")[-1] for c in tfe])
+
+    R.rule("R28.6", "the timer is armed from the queue's own state: the decision StartFetch / Delay (whether a delayed fetch task is spawned for this key type) reads, "
+                    "of the per-type Requests record, only `keys` — a separate 'scheduled' flag can go stale (a timer firing on an already dispatched queue) and then "
+                    "no timer is ever armed again, so later loads below max_batch_size hang")
+    req_adt = F.adt(DL + r"::Requests$")
+    req_fields = {f[0] for f in req_adt["variants"][0]["fields"]}
+    n6 = 0
+    for b in cos:
+        sf = [a for a in find_aggs(b, r"load_many::.*::Action$|load_many::Action$") if a[1][3] == "StartFetch"]
+        for (abb, r_, line) in sf:
+            n6 += 1
+            used = set()
+            for sbb, t in b.switches():
+                if not b.dominates(sbb, abb) or t[1][0] not in ("c", "m"):
+                    continue
+                succs = [x for x in b.succ(sbb) if not b.is_unreachable_block(x)]
+                if all(abb in b.reachable(x, avoid=[sbb]) or x == abb for x in succs):
+                    continue
+                o, passed = trace(b, t[1])
+                for k, x in o:
+                    if k == "field":
+                        used |= {f[1:] for f in x if isinstance(f, str) and f.startswith(".") and f[1:] in req_fields}
+            extra = used - {"keys"}
+            R.check(not extra, "R28.6", "StartFetch:decided-from-keys-only", "%s:%s" % (b.file, line), "guards read Requests.%s" % sorted(used),
+                    "the decision to arm the fetch timer reads Requests.%s besides `keys`: state that is not the queue itself can go stale and leave a non-empty queue without a timer" % sorted(extra))
+    R.floor("R28.6", "StartFetch decision sites", n6, 1)
